@@ -29,7 +29,7 @@ import (
 var mixNames = []string{"provider-requests", "legacy-server-requests", "relying-party-calls", "rs-te-client-calls-on-one-client",
 	"remote-key-set", "construct-providers-while-serving", "device-polls-on-storage-owned-state",
 	"remote-key-set-jwks-failing-flapping-unknown-kid-slow", "rp-verify-tokens-jwks-failing", "provider-requests-storage-faults",
-	"rp-rs-te-calls-endpoint-errors"}
+	"rp-rs-te-calls-endpoint-errors", "handler-values-overlapping-requests"}
 
 var nMixes = len(mixNames)
 
@@ -330,6 +330,25 @@ func raceChild() {
 		}
 		w.errMode.Store(4)
 		clientMix(w, t)
+	case 11: // every handler value the library hands out, truly parallel requests with per-request data
+		var mu sync.Mutex
+		wrong := 0
+		for kind := 0; kind < 4; kind++ {
+			h := newHandlerRun(worldCfg{}, kind, true)
+			par(8, 12, func(g, it int) {
+				r := g*1000 + it
+				run, obs := h.serve(r, newCoop(r, 0))
+				run()
+				if v := obs(); v != r+1 {
+					mu.Lock()
+					wrong++
+					mu.Unlock()
+				}
+			})
+		}
+		if wrong > 0 { // a request that carried another request's data counts like a race report
+			fmt.Printf("WARNING: DATA RACE (c20: %d requests carried another request's per-request data)\n", wrong)
+		}
 	}
 	fmt.Println("c20-race-mix-done")
 }
